@@ -273,7 +273,19 @@ func VerifC10_SwapToNativeHook() {
 	for _, r := range receivers {
 		b0[r.String()] = e.bank.get(r, denom).BigInt()
 	}
-	err, _ := e.deliver(func() error { return erc20Hook{e.k}.PostTxProcessing(e.ctx, nil, &ethtypes.Receipt{Logs: logs}) })
+	// the transaction that carried the events was addressed to the bound contract itself, to another contract
+	// (a router calling the token on the holder's behalf), or created a contract: the events count all the same
+	var target *common.Address
+	switch verifChoice("txTarget", 3) {
+	case 0:
+		c := e.contract
+		target = &c
+	case 1:
+		r := common.HexToAddress("0x00000000000000000000000000000000000000aa")
+		target = &r
+	}
+	ethMsg := ethtypes.NewMessage(tkEth(e.stranger), target, 0, big.NewInt(0), 100000, big.NewInt(1), big.NewInt(1), big.NewInt(1), nil, nil, false)
+	err, _ := e.deliver(func() error { return erc20Hook{e.k}.PostTxProcessing(e.ctx, ethMsg, &ethtypes.Receipt{Logs: logs}) })
 	sup1 := e.bank.supplyOf(denom).BigInt()
 	if err != nil {
 		verifCover("refused")
